@@ -11,7 +11,7 @@
 From VF Require Import Base.Prelude Gen.Enums Model.Graph Gen.InstChecks Model.Insts
      Model.Perform Spec.WF Proofs.ListFacts Proofs.PerformStep Proofs.ModeProofs Proofs.LocalProofs
      Proofs.AloneProofs Proofs.InstsAlone Gen.Configs Gen.Scopes Model.Recipe Model.Check Model.Plan
-     Proofs.PlanLocal Proofs.PipelineAlone.
+     Model.Pipeline Proofs.PlanLocal Proofs.PipelineAlone.
 
 Definition ex_t0 (r : Z) : tensor :=
   {| t_root := r; t_sfx := []; t_shape := 0; t_ty := TY_FLOAT32; t_buf := 1; t_q := None |}.
@@ -160,6 +160,30 @@ Theorem C19_all_stages_as_if_the_subgraph_stood_alone :
       same_subgraph_result k 0 m1 m2.
 Proof. exact stages_alone. Qed.
 Print Assumptions C19_all_stages_as_if_the_subgraph_stood_alone.
+
+(* The whole modelled pipeline checks the uniqueness contract itself
+   (ParamsGenerator.__init__: ValueError on a repeated tensor name), so the
+   statement needs no hypothesis about names: WHENEVER the pipeline returns,
+   subgraph k of its result is what the three stages produce on k alone. *)
+Theorem C19_pipeline_result_is_per_subgraph :
+  forall mk_cls matches rules scope_id m scopes stats m1 rs k g sc,
+    pipeline_cls mk_cls matches rules scope_id m scopes stats = Ok (m1, rs) ->
+    nth_opt (combine (m_subgraphs m) scopes) k = Some (g, sc) -> codes_in_range (m_opcodes m) g ->
+    exists s' tis2 m2,
+      plan matches rules (m_buffers (alone m k g)) (fun _ => scope_id (Z.of_nat k)) (alone m k g) [sc] stats
+        = Ok (filt (nb_of g) rs, s') /\
+      insts_of_params (alone m k g) (map (to_ttp (mk_cls (terms_of rs))) (filt (nb_of g) rs)) = Ok tis2 /\
+      transform_graph (alone m k g) tis2 = Ok m2 /\
+      same_subgraph_result k 0 m1 m2.
+Proof. exact pipeline_subgraph_alone. Qed.
+Print Assumptions C19_pipeline_result_is_per_subgraph.
+
+(* and a model that repeats a name in another subgraph is refused *)
+Example C19_repeated_name_is_refused :
+  plan_checked (fun _ _ => true) init (fun _ _ => 0)
+    {| m_subgraphs := [ex_sg_named 0; ex_sg_named 1]; m_buffers := [BEmpty; BEmpty]; m_opcodes := [0]; m_sigs := [] |}
+    [[false]; [false]] None = Err ValueError.
+Proof. vm_compute. reflexivity. Qed.
 
 (* non-vacuity: two subgraphs with different tensor names; the plan of the
    whole model succeeds, and its entries for subgraph 1 are the plan of
